@@ -2,6 +2,7 @@ package main
 
 import (
 	"fmt"
+	"os"
 	"go/token"
 	"go/types"
 	"math/big"
@@ -90,7 +91,7 @@ func (e *Exec) pop() {
 var builtinOps = map[string]bool{"and": true, "or": true, "not": true, "=>": true, "ite": true, "=": true, "+": true, "-": true, "*": true, "div": true, "mod": true,
 	"<": true, "<=": true, ">": true, ">=": true, "select": true, "store": true, "mkslice": true, "sarr": true, "soff": true, "slen": true, "scap": true,
 	"mkiface": true, "itid": true, "iref": true, "iint": true, "ibool": true, "istr": true, "distinct": true, "forall": true, "exists": true,
-	"el": true, "el_arr": true, "el_idx": true, "rkind": true, "rroot": true, "s_len": true, "s_at": true, "s_id": true, "fnid": true, "gid": true, "true": true, "false": true, "str!empty": true}
+	"el": true, "el_arr": true, "el_idx": true, "rkind": true, "rroot": true, "birth": true, "s_len": true, "s_at": true, "s_id": true, "fnid": true, "gid": true, "true": true, "false": true, "str!empty": true}
 
 // ensureDecls declares every symbol of t that is not yet declared in the
 // current solver scope chain and asserts the facts registered for it.
@@ -213,6 +214,15 @@ func (e *Exec) check(st *State, fr *Frame, class string, instr ssa.Instruction, 
 		return true
 	}
 	e.ensureDecls(goal)
+	if os.Getenv("GOVC_TRACE") != "" {
+		fmt.Fprintf(os.Stderr, "OBLIG %s\n", name)
+	}
+	if o.Failed+o.Undec > 0 && o.Inst > 3 {
+		// already failing: do not spend solver time on further path instances
+		o.Undec++
+		e.assume(goal)
+		return false
+	}
 	var cr CheckResult
 	if e.cexHook != nil {
 		cr = e.proveWithHook(st, o, goal)
